@@ -10,6 +10,10 @@ unchanged with t at the chosen position.  End to end, `serverFromString`/`client
 recording reactor must hand exactly t to listenUNIX(address) / listenTCP(interface=) /
 connectTCP(host, bindAddress) / connectUNIX(path).
 
+Multi-argument family: two or three quoted texts in one description (positional and keyword mixed, empty
+texts and equal texts in different positions, every triple over the hot alphabet up to length 2) — each must
+come back at its own position, so state carried by the tokenizer/parser from one argument to the next shows.
+
 Guards: only `str` descriptions (quoteStringArgument is documented for str); keyword *names* are
 never generated from the text (the statement is about argument values); plugin-based endpoint types
 are not used (getPlugins may write a dropin cache under /repo); ssl descriptions are not used (need
@@ -36,7 +40,8 @@ RULE = ("exhaustive: every string over {':','=','\\\\','a'} up to length 5 (quic
 ASSUMPTIONS = ["trusted base: the expected (args, kwargs) of each template is written by hand next to the template",
                "the recording reactor stands for IReactorTCP/IReactorUNIX; only the arguments it receives are compared"]
 SHARDS = {"quick": 4, "thorough": 16}
-FLOORS = {"parse_roundtrips": 2000, "endpoint_roundtrips": 300, "positional_positions": 500,
+FLOORS = {"multi_slot_roundtrips": 10000, "multi_slot_with_empty_text": 2000, "multi_slot_with_equal_texts": 1000, "multi_slot_endpoint_roundtrips": 200,
+          "parse_roundtrips": 2000, "endpoint_roundtrips": 300, "positional_positions": 500,
           "keyword_positions": 500, "texts_with_colon": 100, "texts_with_backslash": 100,
           "texts_with_equals": 100, "texts_trailing_backslash": 20}
 READY = True
@@ -233,8 +238,72 @@ def gen_text(rng):
     return "".join(out)
 
 
+# ---- several quoted texts in ONE description (state carried from one argument to the next) -------------
+S0, S1, S2 = object(), object(), object()
+MULTI_TEMPLATES = [
+    ("pos-pos-kw", ["x:", S0, ":", S1, ":k=", S2], ["x", S0, S1], {"k": S2}),
+    ("pos-kw-pos", ["tcp:", S0, ":a=", S1, ":", S2], ["tcp", S0, S2], {"a": S1}),
+    ("kw-kw-pos", ["unix:p=", S0, ":q=", S1, ":", S2], ["unix", S2], {"p": S0, "q": S1}),
+]
+MULTI_ENDPOINT = ("cli-tcp-host-bind-timeout", "client", ["tcp:host=", S0, ":port=80:bindAddress=", S1, ":timeout=", S2])
+
+
+def check_multi(ctx, E, texts, with_endpoint):
+    try:
+        qs = [E.quoteStringArgument(t) for t in texts]
+    except Exception as e:
+        ctx.violation("quote-raises", "quoteStringArgument raised", {"texts": texts, "error": repr(e)})
+        return
+    m = dict(zip((S0, S1, S2), zip(texts, qs)))
+    sub = lambda x, j: m[x][j] if x in m else x
+    ctx.distinct(("multi",) + tuple(texts))
+    for name, pieces, eargs, ekw in MULTI_TEMPLATES:
+        desc = "".join(sub(p, 1) for p in pieces)
+        exp = ([sub(a, 0) for a in eargs], {k: sub(v, 0) for k, v in ekw.items()})
+        got = parse(E, desc)
+        ctx.evaluated()
+        ctx.count("multi_slot_roundtrips")
+        if "" in texts:
+            ctx.count("multi_slot_with_empty_text")
+        if len(set(texts)) < 3:
+            ctx.count("multi_slot_with_equal_texts")
+        if got != exp:
+            ctx.violation("multi-argument-mismatch", "several quoted texts in one description: parsed (args, kwargs) differ at %s" % name,
+                          {"texts": texts, "quoted": qs, "template": name, "description": desc, "expected": exp, "observed": got, "kind": "multi"})
+    if with_endpoint and texts[2].isdigit() and len(texts[2]) < 6:
+        name, kind, pieces = MULTI_ENDPOINT
+        desc = "".join(sub(p, 1) for p in pieces)
+        exp = ("call", ("connectTCP", texts[0], 80, int(texts[2]), (texts[1], 0)))
+        got = run_endpoint(E, kind, desc)
+        ctx.evaluated()
+        ctx.count("multi_slot_endpoint_roundtrips")
+        if got != exp:
+            ctx.violation("multi-argument-mismatch", "clientFromString with two quoted texts did not pass them through",
+                          {"texts": texts, "description": desc, "expected": exp, "observed": got, "kind": "multi-endpoint"})
+
+
 def run(ctx):
     from twisted.internet import endpoints as E
+
+    # every triple of texts of length <= 2 (quick: <= 1 for the third) over the hot alphabet, in three multi-argument templates
+    small = [""] + ["".join(t) for n in (1, 2) for t in itertools.product(":=\\a", repeat=n)]
+    k = 0
+    for t0 in small:
+        for t1 in small:
+            k += 1
+            if not ctx.owns(k):
+                continue
+            for t2 in (small if not ctx.quick else small[:5]):
+                check_multi(ctx, E, [t0, t1, t2], False)
+    for i in ctx.cases(6000, 150000):
+        rng = ctx.case_rng("multi", i)
+        texts = [gen_text(rng) if rng.random() < 0.8 else "" for _ in range(3)]
+        if rng.random() < 0.25:
+            texts[rng.randrange(3)] = texts[rng.randrange(3)]  # equal texts in two positions
+        ep = rng.random() < 0.3
+        if ep:
+            texts[2] = str(rng.randrange(1, 99999))
+        check_multi(ctx, E, texts, ep)
 
     # exhaustive small alphabet
     maxlen = 5 if ctx.quick else 6
